@@ -56,8 +56,13 @@ def extract(repo):
     c["OPTION_SKIPPED_EMPTY_MATCH_BIT"] = _num(_need(re.search(r"const OPTION_SKIPPED_EMPTY_MATCH: u32 = 1 << (\d+);", vm), "OPTION_SKIPPED_EMPTY_MATCH").group(1))
     c["MAX_RECURSION"] = _num(_need(re.search(r"const MAX_RECURSION: usize = ([0-9_x]+);", lib), "MAX_RECURSION").group(1))
     c["DEFAULT_BACKTRACK_LIMIT"] = _num(_need(re.search(r"backtrack_limit: ([0-9_]+),", lib), "default backtrack_limit").group(1))
-    m = _need(re.search(r"fn is_special\(c: char\) -> bool \{\s*match c \{(.*?)=> true", lib, re.S), "is_special")
-    specials = re.findall(r"'(\\\\|\\'|[^'])'", m.group(1))
+    # the body of is_special, whichever way the set is spelled (match arms, matches!(..), a slice): every
+    # character literal in it up to the function's closing brace, minus those of an explicit `=> false` arm
+    m = _need(re.search(r"fn is_special\(c: char\) -> bool \{(.*?)\n\}", lib, re.S), "is_special")
+    body = re.sub(r"[^\n]*=>\s*false[^\n]*", "", m.group(1))
+    specials = re.findall(r"'(\\\\|\\'|[^'])'", body)
+    if not specials:
+        raise TieError("translator: no character literal in is_special")
     c["SPECIAL_CHARS"] = [ord(x[-1]) for x in specials]
     m = _need(re.search(r"fn codepoint_len\(b: u8\) -> usize \{\s*match b \{\s*b if b < (0x[0-9a-f]+) => 1,\s*b if b < (0x[0-9a-f]+) => 2,\s*b if b < (0x[0-9a-f]+) => 3,\s*_ => 4,", lib), "codepoint_len")
     c["CP_LEN_THRESHOLDS"] = [_num(m.group(i)) for i in (1, 2, 3)]
